@@ -891,6 +891,9 @@ impl<'r> ReplacementArray {
                             let prev = prev.trim_end().as_bytes();
                             if prev.len() > optional_word.len() &&
                                &prev[prev.len()-optional_word.len()..] == optional_word.as_bytes() {
+                                #[cfg(mathcat_verif)]
+                                crate::verif::emit("repetitive_drop", &[("word", crate::verif::json_str(optional_word)),
+                                        ("in_front", crate::verif::json_str(&optional[..start_index]))]);
                                 return Some( optional_word_start_slice[optional_word.len() + OPTIONAL_INDICATOR_LEN..].trim_start() );
                             } else {
                                 return None;
